@@ -77,6 +77,34 @@ def run(facts, R):
         if v.startswith("Result::Ok{0: Option::Some"):
             R.check(any(x == "Vec::is_empty(arg1.body) is False" for x in g), "read-path-pure", db.path, "Some only for a non-empty body", "decode_body returns %s under %s" % (v[:60], g), db.span)
 
+    # ---------------- index-token: inside an array a reference token addresses an element only if it is a decimal number; the
+    # element index handed to the array comes from `str::parse::<usize>` of that very token (its Ok value) - an empty token, a
+    # name or garbage is an error, never element 0.  A hand-written number parser is not modelled and is reported (fail closed).
+    n_idx = 0
+    for fn_ in ("registry::resolve_ref", "registry::resolve_mut", "registry::set_pointer"):
+        if not facts.has_body(fn_):
+            continue
+        ib = facts.body(fn_)
+        isym = Sym(ib)
+        for i, t in ib.calls():
+            if t["callee"]["name"] not in ("get", "get_mut", "index", "index_mut", "insert", "remove", "swap_remove") or len(t["args"]) < 2:
+                continue
+            tys = t.get("arg_tys") or []
+            if len(tys) < 2 or tys[1] != "usize":
+                continue
+            n_idx += 1
+            if getattr(ib, "changed", False):
+                from analysis.sym import split_eval as _se
+                alts = _se(isym, i, len(ib.blocks[i]["stmts"]), lambda v_: v_.op(t["args"][1])) or [({}, isym.op(t["args"][1]))]
+            else:
+                alts = [({}, isym.op(t["args"][1]))]
+            for _, v in alts:
+                parses = [x for x in walk(v) if x[0] == "call" and x[1].rsplit("::", 1)[-1] == "parse" and "str" in x[1]]
+                R.check(bool(parses) and "as Ok" in render(v) or "as Continue" in render(v) and bool(parses), "index-token", ib.path, "array index is the parsed reference token",
+                        "an array element is addressed with %s, which is not the Ok value of str::parse::<usize>(token): tokens that are not plain decimal numbers "
+                        "(the empty token of `/items/`) may address an element" % render(v)[:120], t.get("span"), "index = token.parse::<usize>()?")
+    R.floor("index-token", n_idx, 3, "array accesses by index in the pointer walkers (one per walker at least)")
+
     # ---------------- callable-once -----------------------------------------------------------------------------
     calls = [(b, i, t) for b in facts.bodies.values() for i, t in b.calls() if t["callee"]["decl"] == "registry::RegistryCallable::call" and b.path.startswith("registry::Registry::")]
     R.check(len(calls) == 1 and calls[0][0] is dw, "callable-once", "<crate>", "one invocation site", "RegistryCallable::call sites: %s" % [b.path for b, _, _ in calls])
